@@ -9,7 +9,7 @@ ARR1 = ["a", "b", "c", "idx"]
 ARR2 = ["m"]
 
 HEADER = ["program p",
-          "  integer :: " + ", ".join(SCALARS + ["i", "j", "ii", "jj"]),
+          "  integer :: " + ", ".join(SCALARS + ["i", "j", "l", "ii", "jj"]),
           f"  integer, dimension({minif.A_LO}:{minif.A_HI}) :: " + ", ".join(ARR1),
           f"  integer, dimension({minif.M_LO}:{minif.M_HI},{minif.M_LO}:{minif.M_HI}) :: m"]
 
@@ -223,7 +223,56 @@ class LoopGen:
         return out
 
 
+# ---- systematic family: outer loop analysed, rank-2 array, inner-variable-only subscripts ----------------------
+NEST2_INNER = [("j", "j"), ("j+1", "j"), ("j-1", "j"), ("j", "j+1"), ("j", "3"), ("3", "j"), ("3", "4"), ("3", "3"),
+               ("j", "l"), ("j+1", "l"), ("j", "n")]
+NEST2_DI = [0, 1, -1, 2, -2]
+
+
+def _off(v, d):
+    return v if d == 0 else f"{v}{'+' if d > 0 else '-'}{abs(d)}"
+
+
+def nest2_loop(order, di, inner, kind):
+    """`do i; do j [; do l]`: write m(.., i) and read / second write m(.., i+di); `order` 0 = inner subscript
+    first, 1 = analysed variable first; `inner` = (inner subscript of the write, of the other access)"""
+    iw, io = inner
+    if order == 0:
+        w, o = f"m({iw}, i)", f"m({io}, {_off('i', di)})"
+    else:
+        w, o = f"m(i, {iw})", f"m({_off('i', di)}, {io})"
+    body = [f"{w} = {o} + 1"] if kind == "read" else [f"{w} = 1", f"{o} = 2"]
+    lines = ["do i = 2, 5", "  do j = 1, 3"]
+    if "l" in iw + io:
+        lines += ["    do l = 1, 3"] + ["      " + b for b in body] + ["    enddo"]
+    else:
+        lines += ["    " + b for b in body]
+    return lines + ["  enddo", "enddo"]
+
+
+def nest2_family():
+    """the whole family (220 loops): both index orders x distance in the analysed variable 0, +-1, +-2 x inner
+    subscripts with offsets / constants / a different inner variable x read or second write"""
+    out = []
+    for order in (0, 1):
+        for di in NEST2_DI:
+            for inner in NEST2_INNER:
+                for kind in ("read", "write2"):
+                    out.append((f"nest2-{order}-{di}-{inner[0]}-{inner[1]}-{kind}", nest2_loop(order, di, inner, kind)))
+    return out
+
+
+def wrap_loop(rng, loop_lines):
+    return "\n".join(HEADER + gen_init(rng) + ["  " + ln for ln in loop_lines] + ["end program p"]) + "\n"
+
+
 def gen_source(rng, flavour=None):
+    if flavour == "nest2" or (flavour is None and rng.random() < 0.07):
+        lines = nest2_loop(rng.choice((0, 1)), rng.choice(NEST2_DI), rng.choice(NEST2_INNER),
+                           rng.choice(("read", "write2")))
+        if rng.random() < 0.4:       # some noise after the nest
+            lines = lines[:-1] + [f"  c(i) = b(i) + {rng.randint(0, 3)}", "enddo"]
+        return wrap_loop(rng, lines), "nest2"
     g = LoopGen(rng, flavour)
     init = gen_init(rng, (1, -1, 2) if g.flavour == "dside" else (0, 1, 2))
     return "\n".join(HEADER + init + g.loop() + ["end program p"]) + "\n", g.flavour
